@@ -18,7 +18,8 @@ Odd      == [BaseState EXCEPT !.limits = {[denom |-> MINT, amt |-> 0], [denom |-
 NoAtt    == [BaseState EXCEPT !.attesters = {}]        \* a genesis without attesters: nothing can be received or replaced
 MCInit == {BaseState, EmptyReg, Paused, Odd, NoAtt}
 
-Addrs  == {"a1", "a2", "EMPTY", "GARBAGE", "WRONG_PREFIX", "BAD_CHECKSUM", "NON_ASCII", "zero", "MODULE"}
+Addrs  == {"a1", "a2", "EMPTY", "GARBAGE", "WRONG_PREFIX", "BAD_CHECKSUM", "NON_ASCII", "EMPTY_PAYLOAD", "LONG_PAYLOAD",
+           "zero", "MODULE", "s8", "l33"}
 Amts   == {ABSENT, -1, 0, 1, 3}
 ByteVs == {B("j", "x1"), Zero32, Pad("a1"), ModulePadded, Empty, Bytes(1, "junk"), Bytes(20, "junk"), Bytes(31, "zero"),
            Bytes(31, "junk"), Bytes(33, "zero"), Bytes(33, "junk"), Bytes(64, "junk")}
